@@ -33,9 +33,9 @@ def run(ck, fb):
         'branches yield the decoded header/record; (c) no function outside RaftIndexManager/RaftIndexInnerManager assigns the catalogue '
         'fields; (d) get_initial_state/get_membership_config read exactly the fields the savers write, and the DTO<->record conversion '
         'covers all catalogue fields in both directions; FileStore::save_hard_state passes term and vote through.')
-    ck.undecided = ('Does not decide byte-level interleavings of writers, nor the window between the acknowledgement and the completion of '
-                    'the detached file write (see DESIGN: write_index acknowledges before the write completes; not demonstrated by a '
-                    'process-kill experiment, therefore not reported as a finding).')
+    ck.undecided = ('Does not decide byte-level interleavings of writers. R05g decides that the answer of a save travels behind its queued '
+                    'write; that write_index only logs an I/O error of the write (the caller is then acknowledged although nothing was '
+                    'written) is true on the tree, needs a failing disk to show, and is not reported.')
     r05a(ck, fb)
     r05b(ck, fb)
     r05c(ck, fb)
